@@ -663,9 +663,19 @@ func (a *fnAnalysis) loopCap(li *loopInfo, st *rstate) int {
 		}
 		return okInit && okStep
 	}
-	concrete := func(v ssa.Value) bool {
+	var concrete func(v ssa.Value) bool
+	concrete = func(v ssa.Value) bool {
 		if _, ok := v.(*ssa.Const); ok {
 			return true
+		}
+		// a concrete bound moved by a constant (len(table) - 1), computed anew in the loop header
+		if bo, ok := v.(*ssa.BinOp); ok && (bo.Op == token.ADD || bo.Op == token.SUB || bo.Op == token.MUL) {
+			if _, isK := bo.Y.(*ssa.Const); isK && concrete(bo.X) {
+				return true
+			}
+			if _, isK := bo.X.(*ssa.Const); isK && concrete(bo.Y) {
+				return true
+			}
 		}
 		if call, ok := v.(*ssa.Call); ok {
 			if b, ok := call.Common().Value.(*ssa.Builtin); ok && b.Name() == "len" {
